@@ -101,6 +101,37 @@ def _work(task) -> core.Part:
                     p.add("nontrivial")
                     if e:
                         _report(p, layout, v, e, f"{n}={t!r:.20}")
+    elif sweep == "pairs":
+        import itertools
+        small = (0, 1, 999, 1000, 65535, 65536, 2**31, 2**32 - 1)
+        for a, b in itertools.combinations(nums, 2):
+            for va in small:
+                for vb in small:
+                    v = base_values(names)
+                    v[a], v[b] = va, vb
+                    e = check(layout, v)
+                    p.add("evaluations")
+                    p.add("nontrivial")
+                    if e:
+                        _report(p, layout, v, e, f"{a}={va}, {b}={vb}")
+                        if p.full("kaifa"):
+                            p.capped = True
+                            return p
+    elif isinstance(sweep, tuple) and sweep[0] == "lattice":
+        _, field, lo, hi = sweep
+        for hi16 in range(lo, hi):
+            for k in range(64):
+                val = (hi16 * 257 % 65536) * 65536 + (k * 1021 + hi16 * 7) % 65536  # spread over the whole 32-bit range
+                v = base_values(names)
+                v[field] = val
+                e = check(layout, v)
+                p.add("evaluations")
+                p.add("nontrivial")
+                if e:
+                    _report(p, layout, v, e, f"{field}={val}")
+                    if p.full("kaifa"):
+                        p.capped = True
+                        return p
     elif sweep == "textlen":
         lens = (0, 1, 5, 6, 7, 8, 11, 12, 13, 16, 32)
         have = [n for n in ("list_ver_id", "meter_id", "meter_type") if n in names]
@@ -139,7 +170,10 @@ def main(run: core.Run) -> int:
                 "all-equal rows, text fields over 5 strings; complete 2^16 sweeps of the low (and thorough: high) half-word of one current and one voltage register; each as bare body and as frame with an APDU date-time; "
                 "non-trivial = distinct lists decoded")
     cosemx.bind_fixtures()
-    tasks = [(lay, run.seed, None) for lay in (1, 9, 13, 14, 18, "se")] + [(lay, run.seed, "textlen") for lay in (9, 13, 14, 18, "se")]
+    tasks = [(lay, run.seed, None) for lay in (1, 9, 13, 14, 18, "se")] + [(lay, run.seed, "textlen") for lay in (9, 13, 14, 18, "se")] + [(lay, run.seed, "pairs") for lay in (9, 13, 14, 18, "se")]
+    for field in ("current_l2", "voltage_l3", "active_power_import"):
+        for a in range(0, 256 if q else 8192, 64):
+            tasks.append((18, run.seed, ("lattice", field, a, a + 64)))
     for field in ("current_l1", "voltage_l1") if q else ("current_l1", "current_l3", "voltage_l1", "voltage_l2"):
         for shift in ((0,) if q else (0, 16)):
             for a in range(0, 65536, 4096):
@@ -148,7 +182,7 @@ def main(run: core.Run) -> int:
     tot = run.total
     tot.sample({"layout": 1, "body": RC.kaifa_body_positional(RC.KAIFA_LAYOUTS[1], {"active_power_import": 1320}).hex(), "expected": {"active_power_import": 1320, "meter_manufacturer": "Kaifa"}})
     tot.sample({"layout": 13, "register current_l2": 57, "expected": 0.057})
-    run.bounds = {"layouts": [1, 9, 13, 14, 18, "se"], "text_lengths": "full product of lengths {0,1,5,6,7,8,11,12,13,16,32} over the three identification strings", "u32_alphabet": len(cosemx.int_alphabet("u32", run.seed))}
+    run.bounds = {"layouts": [1, 9, 13, 14, 18, "se"], "pairwise": "every pair of numeric positions x 8x8 values", "lattice": "16 384 (thorough 524 288) values spread over the whole 32-bit range for one current, one voltage and one power register", "text_lengths": "full product of lengths {0,1,5,6,7,8,11,12,13,16,32} over the three identification strings", "u32_alphabet": len(cosemx.int_alphabet("u32", run.seed))}
     run.assumptions = ["reference encoders and documented position/OBIS tables in mc/ref/cosem.py (bound to the fixtures of tests/test_kaifa.py)", "32-bit registers: boundaries, bit patterns and complete 16-bit sub-cubes"]
     ev = tot.c.get("evaluations", 0)
     return run.finish(states=tot.c.get("nontrivial", 0), transitions=ev, traces=ev, evaluations=ev, distinct_nontrivial=tot.c.get("nontrivial", 0))
